@@ -105,10 +105,15 @@ fn main() {
         state: Mutex::new(Default::default()),
     };
 
-    let level = match props::run(&ctx) {
-        Some(l) => l,
-        None => {
+    let level = match std::panic::catch_unwind(std::panic::AssertUnwindSafe(|| props::run(&ctx))) {
+        Ok(Some(l)) => l,
+        Ok(None) => {
             eprintln!("unknown property id {id}");
+            std::process::exit(2);
+        }
+        Err(p) => {
+            // a panic of the harness itself (generator, interpreter) is infrastructure trouble, not a violation
+            eprintln!("harness panic (infrastructure, exit 2): {}", rt::panic_text(&p));
             std::process::exit(2);
         }
     };
